@@ -123,7 +123,14 @@ def bounded_nested(seed, n):
     for ka in B.FLAT:
         for kb in B.FLAT:
             nd = len(K.flat_designs(ka, kb, rng))
-            flat_pool += list(K.flat_pairs(ka, kb, rng, nd))  # every designed relative position of every flat pair exactly once
+            got = {}
+            for rnd in range(4):  # every designed relative position of every flat pair once: the first instance of each label that passes the admission filter
+                for a_, b_, lab_ in K.flat_pairs(ka, kb, rng, nd):
+                    if lab_ not in got and B.admitted(a_, b_, O.intersect(a_, b_)):
+                        got[lab_] = (a_, b_, lab_)
+                if len(got) == nd:
+                    break
+            flat_pool += list(got.values())
     bodies = list(K.polygons(rng, 4)) + list(K.polyhedra(rng, 4))
     for Kb in bodies:
         for kind in B.FLAT:
@@ -139,18 +146,22 @@ def bounded_nested(seed, n):
                 if count >= n:
                     break
                 r_ab = O.intersect(a, b)
-                c = third(a, b, r_ab)
-                try:
-                    O.check_object(c)
-                except Exception:
-                    continue
-                r_bc = O.intersect(b, c)
-                exact = O.intersect(r_ab, c) if r_ab is not None else None
-                exact2 = O.intersect(a, r_bc) if r_bc is not None else None
-                if not O.same_set(exact, exact2):
-                    acc.fail("oracle", "oracle is not associative on this triple", dict(a=B.ser(a), b=B.ser(b), c=B.ser(c)))
-                    continue
-                ok = B.admitted(a, b, r_ab) and B.admitted(b, c, r_bc) and (r_ab is None or B.admitted(r_ab, c, exact)) and (r_bc is None or B.admitted(a, r_bc, exact))
+                ok = False
+                for attempt in range(5):  # a designed pair is not dropped because the first third operand drawn for it is not admissible
+                    c = third(a, b, r_ab)
+                    try:
+                        O.check_object(c)
+                    except Exception:
+                        continue
+                    r_bc = O.intersect(b, c)
+                    exact = O.intersect(r_ab, c) if r_ab is not None else None
+                    exact2 = O.intersect(a, r_bc) if r_bc is not None else None
+                    if not O.same_set(exact, exact2):
+                        acc.fail("oracle", "oracle is not associative on this triple", dict(a=B.ser(a), b=B.ser(b), c=B.ser(c)))
+                        continue
+                    ok = B.admitted(a, b, r_ab) and B.admitted(b, c, r_bc) and (r_ab is None or B.admitted(r_ab, c, exact)) and (r_bc is None or B.admitted(a, r_bc, exact))
+                    if ok:
+                        break
                 if not ok:
                     acc.skipped += 1
                     continue
